@@ -1,7 +1,22 @@
 import PppModel.Auto
+import PppModel.Lemmas.AutoDetect
 
 /-!
 # C06 — version auto-detection agrees with the two dedicated parsers
+
+`HeaderResult::parse` (`Auto.parse`) runs the binary parser first and falls back
+to the text parser exactly when the binary verdict is a terminal error
+(`auto_def`). This file shows that the dispatch is sound:
+
+* the two formats are disjoint on the first byte (`v1_accept_starts_with_P`,
+  `v2_not_terminal_starts`), so no buffer is accepted by both (`never_both`);
+* the dispatcher accepts exactly what one of the two parsers accepts, with the
+  same header and the right tag (`tag_v2`, `tag_v1`, `accept_iff`);
+* it is incomplete exactly when v2 is incomplete, or v2 is terminal and v1 is
+  incomplete (`incomplete_iff`); everything else is a complete error
+  (`terminal_otherwise`);
+* a buffer that is still a possible v2 header is never handed to the text
+  parser's verdict (`possible_v2_never_v1`).
 -/
 
 namespace C06
@@ -17,5 +32,267 @@ theorem auto_def (x : B) :
   cases h : V2.parse x with
   | ok hd => simp [isCompleteV2, isIncompleteV2, isErr]
   | error e => cases he : e.isIncomplete <;> simp [isCompleteV2, isIncompleteV2, isErr, he]
+
+/-- The three branches of `auto_def`, one at a time. -/
+theorem auto_of_ok {x : B} {h : V2.Header} (hv : V2.parse x = .ok h) : parse x = .v2 (.ok h) := by
+  rw [auto_def, hv]
+
+theorem auto_of_incomplete {x : B} {e : V2.ParseError} (hv : V2.parse x = .error e)
+    (he : e.isIncomplete = true) : parse x = .v2 (.error e) := by
+  rw [auto_def, hv]; simp only [he, if_true]
+
+theorem auto_of_terminal {x : B} {e : V2.ParseError} (hv : V2.parse x = .error e)
+    (he : e.isIncomplete = false) : parse x = .v1 (V1.parseBytes x) := by
+  rw [auto_def, hv]; simp only [he, Bool.false_eq_true, if_false]
+
+/-! ## The two formats differ on the first byte -/
+
+/-- An input accepted by the text parser starts with the six bytes `PROXY␠`. -/
+theorem v1_accept_starts_with_PROXY {x : B} {h : V1.Header} (hp : V1.parseBytes x = .ok h) :
+    x.take 6 = V1.PROXY ++ [V1.SP] :=
+  V1.AutoDetect.parseBytes_ok_take6 hp
+
+/-- In particular its first byte is `'P'`. -/
+theorem v1_accept_starts_with_P {x : B} {h : V1.Header} (hp : V1.parseBytes x = .ok h) :
+    x.head? = some 0x50 := by
+  have h6 := v1_accept_starts_with_PROXY hp
+  cases x with
+  | nil => cases h6
+  | cons c t =>
+    rw [List.take_succ_cons] at h6
+    rw [(List.cons.inj h6).1]
+    rfl
+
+/-- An input accepted by the text parser is a well-formed line (cf. `V1.parseHeader_ok_iff`):
+the window is a window, so the grammar theorem applies to the bytes entry point. -/
+theorem v1_accept_is_line {x : B} {h : V1.Header} (hp : V1.parseBytes x = .ok h) :
+    ∃ n, V1.windowLength x = some n ∧ h.header = x.take n ∧ (x.take n).length ≤ 107 ∧
+      Spec.V1.Line V1.ip6Model (x.take n) h.addresses :=
+  V1.AutoDetect.parseBytes_ok_line hp
+
+/-- A non-empty buffer whose first byte is not CR is rejected terminally by the
+binary parser. -/
+theorem v2_terminal_of_head {x : B} {c : UInt8} (hh : x.head? = some c) (hc : c ≠ 0x0D) :
+    V2.parse x = .error .badPrefix :=
+  V2.parse_badPrefix_of_head hh hc
+
+/-- A buffer that v2 accepts, or that is still a possible v2 header, is empty or
+starts with the first signature byte CR. -/
+theorem v2_not_terminal_starts {x : B}
+    (h : (∃ hd, V2.parse x = .ok hd) ∨ (∃ e, V2.parse x = .error e ∧ e.isIncomplete = true)) :
+    x = [] ∨ x.head? = some 0x0D := by
+  apply V2.head_of_not_badPrefix
+  intro hb
+  rcases h with ⟨hd, h⟩ | ⟨e, h, he⟩
+  · rw [hb] at h; cases h
+  · rw [hb] at h; cases h; cases he
+
+/-- An accepted v2 input is non-empty, so it does start with CR. -/
+theorem v2_accept_starts_with_CR {x : B} {h : V2.Header} (hp : V2.parse x = .ok h) :
+    x.head? = some 0x0D := by
+  rcases v2_not_terminal_starts (.inl ⟨h, hp⟩) with rfl | h'
+  · cases hp
+  · exact h'
+
+/-- If the text parser accepts, the binary parser rejects *terminally*. -/
+theorem v1_accept_v2_terminal {x : B} {h : V1.Header} (hp : V1.parseBytes x = .ok h) :
+    V2.parse x = .error .badPrefix :=
+  v2_terminal_of_head (v1_accept_starts_with_P hp) (by decide)
+
+/-- No buffer is accepted by both parsers. -/
+theorem never_both (x : B) :
+    ¬ ((∃ h1, V1.parseBytes x = .ok h1) ∧ (∃ h2, V2.parse x = .ok h2)) := by
+  rintro ⟨⟨h1, hp1⟩, ⟨h2, hp2⟩⟩
+  rw [v1_accept_v2_terminal hp1] at hp2
+  cases hp2
+
+/-! ## Acceptance -/
+
+/-- The dispatcher reports a v2 header exactly when the binary parser does. -/
+theorem tag_v2 (x : B) (h : V2.Header) : parse x = .v2 (.ok h) ↔ V2.parse x = .ok h := by
+  cases hv : V2.parse x with
+  | ok hd => rw [auto_of_ok hv]; simp
+  | error e =>
+    cases he : e.isIncomplete with
+    | true => rw [auto_of_incomplete hv he]; simp
+    | false => rw [auto_of_terminal hv he]; simp
+
+/-- The dispatcher reports a v1 header exactly when the text parser does. -/
+theorem tag_v1 (x : B) (h : V1.Header) : parse x = .v1 (.ok h) ↔ V1.parseBytes x = .ok h := by
+  constructor
+  · cases hv : V2.parse x with
+    | ok hd => rw [auto_of_ok hv]; simp
+    | error e =>
+      cases he : e.isIncomplete with
+      | true => rw [auto_of_incomplete hv he]; simp
+      | false => rw [auto_of_terminal hv he]; simp
+  · intro hp
+    rw [auto_of_terminal (v1_accept_v2_terminal hp) rfl, hp]
+
+/-- The dispatcher accepts exactly the buffers accepted by one of the two parsers. -/
+theorem accept_iff (x : B) :
+    ((∃ h, parse x = .v1 (.ok h)) ∨ (∃ h, parse x = .v2 (.ok h))) ↔
+      ((∃ h, V1.parseBytes x = .ok h) ∨ (∃ h, V2.parse x = .ok h)) := by
+  simp only [tag_v1, tag_v2]
+
+/-- The same, with the result named (the form in the property list). -/
+theorem accept_iff' (x : B) :
+    (∃ r, parse x = r ∧ ((∃ h, r = .v1 (.ok h)) ∨ (∃ h, r = .v2 (.ok h)))) ↔
+      ((∃ h, V1.parseBytes x = .ok h) ∨ (∃ h, V2.parse x = .ok h)) := by
+  rw [← accept_iff]
+  constructor
+  · rintro ⟨r, rfl, h⟩; exact h
+  · intro h; exact ⟨_, rfl, h⟩
+
+/-- …and by exactly one of them. -/
+theorem accept_exclusive (x : B) :
+    ¬ ((∃ h, parse x = .v1 (.ok h)) ∧ (∃ h, parse x = .v2 (.ok h))) := by
+  rintro ⟨⟨h1, e1⟩, ⟨h2, e2⟩⟩
+  rw [e1] at e2
+  cases e2
+
+/-! ## Incomplete, complete, terminal -/
+
+/-- The dispatcher asks for more bytes exactly when v2 does, or v2 fails
+terminally and v1 asks for more bytes. -/
+theorem incomplete_iff (x : B) :
+    (parse x).isIncomplete = true ↔
+      (isIncompleteV2 (V2.parse x) = true ∨
+        (isIncompleteV2 (V2.parse x) = false ∧ isErr (V2.parse x) = true ∧
+          isIncompleteV1 (V1.parseBytes x) = true)) := by
+  cases hv : V2.parse x with
+  | ok hd => rw [auto_of_ok hv]; simp [HeaderResult.isIncomplete, isIncompleteV2, isErr]
+  | error e =>
+    cases he : e.isIncomplete with
+    | true => rw [auto_of_incomplete hv he]; simp [HeaderResult.isIncomplete, isIncompleteV2, he]
+    | false =>
+      rw [auto_of_terminal hv he]; simp [HeaderResult.isIncomplete, isIncompleteV2, isErr, he]
+
+theorem complete_eq (x : B) : (parse x).isComplete = !(parse x).isIncomplete := rfl
+
+/-- A `.v2 (.error e)` result is always an incomplete one: terminal v2 errors fall
+through to the text parser. -/
+theorem v2_error_incomplete (x : B) (e : V2.ParseError) (h : parse x = .v2 (.error e)) :
+    V2.parse x = .error e ∧ e.isIncomplete = true := by
+  cases hv : V2.parse x with
+  | ok hd => rw [auto_of_ok hv] at h; cases h
+  | error e' =>
+    cases he : e'.isIncomplete with
+    | false => rw [auto_of_terminal hv he] at h; cases h
+    | true =>
+      rw [auto_of_incomplete hv he] at h
+      cases h
+      exact ⟨rfl, he⟩
+
+/-- In every other case (not accepted, not incomplete) the result is the text
+parser's terminal error, and the binary parser failed terminally as well. -/
+theorem terminal_otherwise (x : B) (hi : (parse x).isIncomplete = false)
+    (hna : ¬ ((∃ h, V1.parseBytes x = .ok h) ∨ (∃ h, V2.parse x = .ok h))) :
+    ∃ e1 e2, parse x = .v1 (.error e1) ∧ e1.isIncomplete = false ∧
+      V1.parseBytes x = .error e1 ∧ V2.parse x = .error e2 ∧ e2.isIncomplete = false := by
+  cases hv : V2.parse x with
+  | ok hd => exact absurd (.inr ⟨hd, hv⟩) hna
+  | error e2 =>
+    cases he : e2.isIncomplete with
+    | true =>
+      rw [auto_of_incomplete hv he] at hi
+      simp [HeaderResult.isIncomplete, isIncompleteV2, he] at hi
+    | false =>
+      rw [auto_of_terminal hv he] at hi ⊢
+      cases h1 : V1.parseBytes x with
+      | ok h => exact absurd (.inl ⟨h, h1⟩) hna
+      | error e1 =>
+        rw [h1] at hi
+        exact ⟨e1, e2, rfl, hi, rfl, rfl, he⟩
+
+/-- The weaker reading of the same statement: a complete error under one of the two tags. -/
+theorem terminal_otherwise' (x : B) (hi : (parse x).isIncomplete = false)
+    (hna : ¬ ((∃ h, V1.parseBytes x = .ok h) ∨ (∃ h, V2.parse x = .ok h))) :
+    (∃ e, parse x = .v1 (.error e) ∧ e.isIncomplete = false) ∨
+      (∃ e, parse x = .v2 (.error e) ∧ e.isIncomplete = false) := by
+  obtain ⟨e1, -, h, h', -⟩ := terminal_otherwise x hi hna
+  exact .inl ⟨e1, h, h'⟩
+
+/-- Trichotomy: accepted, incomplete, or a complete error; the three are exclusive. -/
+theorem trichotomy (x : B) :
+    ((∃ h, V1.parseBytes x = .ok h) ∨ (∃ h, V2.parse x = .ok h)) ∨
+    (parse x).isIncomplete = true ∨
+    (∃ e, parse x = .v1 (.error e) ∧ e.isIncomplete = false) := by
+  by_cases ha : (∃ h, V1.parseBytes x = .ok h) ∨ (∃ h, V2.parse x = .ok h)
+  · exact .inl ha
+  · cases hi : (parse x).isIncomplete with
+    | true => exact .inr (.inl rfl)
+    | false =>
+      obtain ⟨e1, -, h, h', -⟩ := terminal_otherwise x hi ha
+      exact .inr (.inr ⟨e1, h, h'⟩)
+
+/-- An accepted buffer is never reported incomplete. -/
+theorem accepted_complete (x : B)
+    (ha : (∃ h, V1.parseBytes x = .ok h) ∨ (∃ h, V2.parse x = .ok h)) :
+    (parse x).isIncomplete = false := by
+  rcases ha with ⟨h, hp⟩ | ⟨h, hp⟩
+  · rw [(tag_v1 x h).mpr hp]; rfl
+  · rw [(tag_v2 x h).mpr hp]; rfl
+
+/-- A buffer that is still a possible v2 header is never handed to the text
+parser's verdict. -/
+theorem possible_v2_never_v1 (x : B) (e : V2.ParseError) (h : V2.parse x = .error e)
+    (hi : e.isIncomplete = true) : parse x = .v2 (.error e) := by
+  rw [auto_def, h]
+  simp [hi]
+
+/-- Conversely, a v1-tagged result means the binary parser failed terminally. -/
+theorem v1_tag_v2_terminal (x : B) (r : Except V1.BinaryParseError V1.Header)
+    (h : parse x = .v1 r) :
+    r = V1.parseBytes x ∧ ∃ e, V2.parse x = .error e ∧ e.isIncomplete = false := by
+  cases hv : V2.parse x with
+  | ok hd => rw [auto_of_ok hv] at h; cases h
+  | error e =>
+    cases he : e.isIncomplete with
+    | true => rw [auto_of_incomplete hv he] at h; cases h
+    | false =>
+      rw [auto_of_terminal hv he] at h
+      cases h
+      exact ⟨rfl, e, rfl, he⟩
+
+/-! ## Non-vacuity -/
+
+/-- A proper prefix of the v2 signature: still a possible v2 header. -/
+example : parse [0x0D, 0x0A, 0x0D] = .v2 (.error (.incomplete 3)) ∧
+    (parse [0x0D, 0x0A, 0x0D]).isIncomplete = true := by decide
+
+/-- The empty buffer is a possible v2 header too. -/
+example : parse [] = .v2 (.error (.incomplete 0)) := by decide
+
+/-- `PROXY UNKNOWN\r\n` is accepted with the v1 tag. -/
+example : parse [0x50, 0x52, 0x4F, 0x58, 0x59, 0x20, 0x55, 0x4E, 0x4B, 0x4E, 0x4F, 0x57, 0x4E,
+      0x0D, 0x0A] =
+    .v1 (.ok { header := [0x50, 0x52, 0x4F, 0x58, 0x59, 0x20, 0x55, 0x4E, 0x4B, 0x4E, 0x4F,
+      0x57, 0x4E, 0x0D, 0x0A], addresses := .unknown }) := by decide
+
+/-- `PROXY UNK`: v2 is terminal, v1 asks for more. -/
+example : parse [0x50, 0x52, 0x4F, 0x58, 0x59, 0x20, 0x55, 0x4E, 0x4B] =
+      .v1 (.error (.parse .partialHdr)) ∧
+    (parse [0x50, 0x52, 0x4F, 0x58, 0x59, 0x20, 0x55, 0x4E, 0x4B]).isIncomplete = true := by decide
+
+/-- `GET /\r\n`: a complete error with the v1 tag. -/
+example : parse [0x47, 0x45, 0x54, 0x20, 0x2F, 0x0D, 0x0A] = .v1 (.error (.parse .invalidPrefix)) ∧
+    (parse [0x47, 0x45, 0x54, 0x20, 0x2F, 0x0D, 0x0A]).isComplete = true := by decide
+
+/-- A v2 PROXY/TCP4 header (followed by two payload bytes) is accepted with the v2 tag. -/
+example : parse [0x0D, 0x0A, 0x0D, 0x0A, 0x00, 0x0D, 0x0A, 0x51, 0x55, 0x49, 0x54, 0x0A,
+      0x21, 0x11, 0x00, 0x0C, 127, 0, 0, 1, 192, 168, 1, 1, 0, 80, 1, 187, 0x50, 0x52] =
+    .v2 (.ok {
+      header := [0x0D, 0x0A, 0x0D, 0x0A, 0x00, 0x0D, 0x0A, 0x51, 0x55, 0x49, 0x54, 0x0A,
+        0x21, 0x11, 0x00, 0x0C, 127, 0, 0, 1, 192, 168, 1, 1, 0, 80, 1, 187]
+      version := .two
+      command := .proxy
+      protocol := .stream
+      addresses := .ipv4 { srcAddr := ⟨127, 0, 0, 1⟩, srcPort := 80,
+                           dstAddr := ⟨192, 168, 1, 1⟩, dstPort := 443 } }) := by decide
+
+/-- A v2 header cut after 19 bytes: incomplete with the v2 tag, never v1. -/
+example : parse [0x0D, 0x0A, 0x0D, 0x0A, 0x00, 0x0D, 0x0A, 0x51, 0x55, 0x49, 0x54, 0x0A,
+      0x21, 0x11, 0x00, 0x0C, 1, 2, 3] = .v2 (.error (.partialHdr 3 12)) := by decide
 
 end C06
